@@ -2258,6 +2258,8 @@ class LinearOperator(object):
                                 self.shape, initial_vectors.shape
                             )
                         )
+                    # a single start vector: Lanczos expects ... x n x num_init_vecs
+                    initial_vectors = initial_vectors.unsqueeze(-1)
                 elif self.dim() != initial_vectors.dim():
                     raise RuntimeError(
                         "LinearOperator (size={}) and initial_vectors (size={}) should have the same number "
